@@ -20,9 +20,15 @@
 (*              printer produced, rd = what the reader made of the text.   *)
 (*     required: rd is exactly m.                                          *)
 (*                                                                         *)
-(*  kind "lit": a spelling sp read as the single element of an array text: *)
-(*              n = number of data read, got = the first, iv = the         *)
-(*              rounding interval of a finite float result.                *)
+(*  kind "lit": a spelling sp read as the single element of an array text, *)
+(*              between spaces, directly inside the brackets, or behind a  *)
+(*              reader prefix (pre: % ^ ~ ~@, which wraps the datum in a   *)
+(*              list headed by wrap): n = number of data read, got = the   *)
+(*              datum, iv = the rounding interval of a finite float.       *)
+(*  kind "qlit": a character or string literal written with the escape     *)
+(*              tokens toks (raw, \c, \xHH, \uHHHH, \UHHHHHHHH): rd must be *)
+(*              exactly the runes the tokens denote (Codec: ZyTokOK,       *)
+(*              TokUnit); tokens that denote no rune are not judged.       *)
 (*     required: what NumLit!Classify(sp) says (exact integer values,      *)
 (*     correctly rounded floats, errors for out-of-range integers).        *)
 (*                                                                         *)
@@ -41,6 +47,10 @@
 (*        without escaping: keys containing " or \ do not read back        *)
 (*   lone-sign-symbol-unreadable    a text whose only datum is the symbol  *)
 (*        - or + makes the reader look ahead (for Inf) past the end        *)
+(*   hash-symbol-key-printed-bare   a symbol key is printed as  name:  also  *)
+(*        when the name is not one the lexer reads as a symbol (my-key, 1, *)
+(*        the empty name, a b: what the JSON decoder makes of member       *)
+(*        names): the printed hash does not evaluate back                  *)
 (*   float-literal-underscore-rejected  a float literal with an underscore *)
 (*        that does not stand between two digits is rejected               *)
 (*   negative-dot-float-split       -.5 reads as the symbol - and .5       *)
@@ -59,7 +69,7 @@ tvars == <<ci, verdict>>
 IsErr(r) == r[1] = "err"
 
 AllDevs == {"float-prints-without-fraction", "nil-reads-as-symbol", "char-literal-first-byte",
-            "escape-not-readable", "hash-string-key-printed-raw", "lone-sign-symbol-unreadable",
+            "escape-not-readable", "hash-string-key-printed-raw", "hash-symbol-key-printed-bare", "lone-sign-symbol-unreadable",
             "float-literal-underscore-rejected", "negative-dot-float-split"}
 ASSUME TLCSet(12, {d \in AllDevs : DevOn(d)})
 D == TLCGet(12)      \* the enabled deviations
@@ -74,6 +84,8 @@ HalfVerdict(c, r, half) ==
          THEN "known:float-prints-without-fraction"
     ELSE IF IsErr(r) /\ half = "rd" /\ DevOn("lone-sign-symbol-unreadable") /\ v \in {<<"sym", <<43>>>>, <<"sym", <<45>>>>}
          THEN "known:lone-sign-symbol-unreadable"
+    ELSE IF half = "ev" /\ DevOn("hash-symbol-key-printed-bare") /\ HasBadSymKey(v)
+         THEN "known:hash-symbol-key-printed-bare"
     ELSE IF half = "ev" /\ DevOn("hash-string-key-printed-raw") /\ HasRawKey(c.cc, v)
          THEN "known:hash-string-key-printed-raw"
     ELSE IF ~IsErr(r) /\ Same(v, r, half, D) THEN      \* name a deviation the explanation cannot do without
@@ -110,8 +122,16 @@ ClsVerdict(c) ==
             THEN <<"known:escape-not-readable", "">>
        ELSE <<"bad", "escape">>
 
+(* the symbol heading the list a reader prefix wraps its datum in *)
+WrapName(pre) ==
+    CASE pre = "%"  -> <<113, 117, 111, 116, 101>>                                                  \* quote
+      [] pre = "^"  -> <<115, 121, 110, 116, 97, 120, 81, 117, 111, 116, 101>>                      \* syntaxQuote
+      [] pre = "~"  -> <<117, 110, 113, 117, 111, 116, 101>>                                        \* unquote
+      [] pre = "~@" -> <<117, 110, 113, 117, 111, 116, 101, 45, 115, 112, 108, 105, 99, 105, 110, 103>>  \* unquote-splicing
+      [] OTHER -> <<>>
+
 LitOK(c, k) ==
-    LET got == c.got  one == c.n = 1 IN
+    LET got == c.got  one == c.n = 1 /\ c.wrap = WrapName(c.pre) IN
     CASE k[1] = "notnum" -> TRUE
       [] k[1] \in {"int", "uint"} -> one /\ got[1] = k[1] /\ NumVal(got) = k[2]
       [] k[1] = "nan" -> one /\ got[1] = "flt" /\ got[2] = "nan"
@@ -134,7 +154,18 @@ LitVerdict(c) ==
          THEN <<"known:negative-dot-float-split", "">>
     ELSE <<"bad", k[1]>>
 
-Judge(c) == IF c.kind = "cls" THEN ClsVerdict(c) ELSE IF c.kind = "lit" THEN LitVerdict(c) ELSE PrVerdict(c)
+(* a character / string literal written with the escape tokens toks *)
+QlitVerdict(c) ==
+    LET toks == c.toks
+        judged == \A i \in 1..Len(toks) : ZyTokJudged(toks[i], c.ctx)
+        den == [i \in 1..Len(toks) |-> TokUnit(toks[i])]
+        want == IF c.ctx = "chr" THEN <<"chr", den[1]>> ELSE <<"str", den>>
+    IN IF ~judged THEN <<"ok", "unjudged">>
+       ELSE IF c.rd = want THEN <<"ok", c.ctx>>
+       ELSE <<"bad", "literal">>
+
+Judge(c) == IF c.kind = "cls" THEN ClsVerdict(c) ELSE IF c.kind = "lit" THEN LitVerdict(c)
+            ELSE IF c.kind = "qlit" THEN QlitVerdict(c) ELSE PrVerdict(c)
 
 TInit == ci \in 1..Len(Cases) /\ verdict = "run"
 TStep == /\ verdict = "run"
